@@ -58,6 +58,12 @@ mut('d1n_credit_nonopener', 'lnwallet/commitment.go', NEG, [CREDIT])
 mut('d1r_credit_nonopener', 'lnwallet/commitment.go', RBF, [CREDIT])
 mut('d2n_dust_other_party', 'lnwallet/channel.go', NEG, DUST)
 mut('d2r_dust_other_party', 'lnwallet/channel.go', RBF, DUST)
+TRIM = [('haveRemoteOutput := theirBalance >= remoteDust',
+         'haveRemoteOutput := theirBalance > remoteDust'),
+        ('haveLocalOutput := ourBalance >= localDust',
+         'haveLocalOutput := ourBalance > localDust')]
+mut('d4n_trim_off_by_one', 'lnwallet/channel.go', NEG, TRIM)
+mut('d4r_trim_off_by_one', 'lnwallet/channel.go', RBF, TRIM)
 mut('d3_accept_band_3pct', cc, NEG, [
     ('acceptableRange := localFee + ((localFee * 3) / 10)',
      'acceptableRange := localFee + ((localFee * 3) / 100)'),
@@ -197,10 +203,16 @@ mut('r7_closee_signs_other_fee', tr, RBF, [
 			env, msg.SigMsg.FeeSatoshis, l.LocalDeliveryScript,''',
      '''		wireSig, localSig, err := createLocalCloseeSignature(
 			env, msg.SigMsg.FeeSatoshis+1, l.LocalDeliveryScript,''')])
-mut('r8_remote_dust_uses_local_script', stt, RBF, [
-    ('''	return c.RemoteBalance.ToSatoshis() < lnwallet.DustLimitForSize(
-		len(c.RemoteDeliveryScript),''',
-     '''	return c.RemoteBalance.ToSatoshis() < lnwallet.DustLimitForSize(
+# (RemoteAmtIsDust is dead code; the closee's own predicate is the live one.)
+mut('r8_local_dust_uses_remote_script', stt, RBF, [
+    ('''	return c.LocalBalance.ToSatoshis() < lnwallet.DustLimitForSize(
+		len(c.LocalDeliveryScript),''',
+     '''	return c.LocalBalance.ToSatoshis() < lnwallet.DustLimitForSize(
+		len(c.RemoteDeliveryScript),''')])
+mut('r12_local_dust_off_by_one', stt, RBF, [
+    ('''	return c.LocalBalance.ToSatoshis() < lnwallet.DustLimitForSize(
+		len(c.LocalDeliveryScript),''',
+     '''	return c.LocalBalance.ToSatoshis() <= lnwallet.DustLimitForSize(
 		len(c.LocalDeliveryScript),''')])
 mut('r9_rbf_bump_reuses_old_rate', tr, RBF, [
     ('''	case *SendOfferEvent:
